@@ -722,6 +722,9 @@ pub fn step_case_ex<Q: Rep>(tc: &TC<Q>, script_seed: u64, bisect: bool, hist: &s
             (gr[d.left].0.q.clone(), gr[d.left + 1].0.q.clone())
         };
         let want = oracle_ratio_l(&ga, betas[d.left], &gb, betas[d.left + 1], Some((after[d.left].sampler_cutoff, after[d.left + 1].sampler_cutoff)));
+        if want.is_nan() {
+            fail(format!("pair ({},{}): the Metropolis ratio is undefined with the cutoffs in force (a string longer than its position's cutoff)", d.left, d.left + 1));
+        }
         if bisect && (p - want).abs() > 1e-9 {
             fail(format!(
                 "pair ({},{}) swaps with probability {:.12} but the Metropolis ratio of the configurations is {:.12}",
